@@ -165,6 +165,11 @@ func c09Case(i int64, seed uint64, nSweep int64) evalCase {
 		return evalCase{prog: p, doc: sweepDocs[r.Intn(len(sweepDocs))], kind: k, det: !strings.Contains(p, "$random") && !strings.Contains(p, "$shuffle") && !strings.Contains(p, "$now") && !strings.Contains(p, "$millis")}
 	}
 	i -= nSweep
+	if i%4 == 3 {
+		r := prng.New(seed, 0xC09E, uint64(i))
+		p, d, k := edgeCase(r)
+		return evalCase{prog: p, doc: d, kind: k, det: true}
+	}
 	r := prng.New(seed, 0xC09B, uint64(i))
 	det := i%2 == 0
 	depth := 3 + int(i%4)
@@ -191,15 +196,16 @@ func decodeDoc(doc string) interface{} {
 func init() {
 	rule := "cases: (a) systematic sweep of every built-in x every arity 0..min(declared+1,3) x every tuple of 10 argument kinds (number,string,boolean,null,array,nested array,object,function,missing,input path), exhaustive over kind tuples; " +
 		"(b) PRNG-generated type-chaotic programs of depth 3..6 over every node type (paths, wildcards, predicates, sorts, groupings, transforms, lambdas with signatures, partials, chains, functions used as data, bounded recursion) on generated JSON documents with nulls, empty containers and arrays nested in arrays. " +
+		"(c) every fourth generated case probes the edges of the picture grammars and of the matcher protocol: $fromMillis/$toMillis with generated date pictures (width modifiers up to 100 and malformed, presentation strings of up to 70 digits, non-ASCII digit families) over extreme instants, $formatNumber with pictures of up to 70+70 digits, 25-digit exponents, 300 mandatory digits and malformed pictures over extreme doubles, $formatBase/$round/$number at the edges of their domains, and $split/$replace/$match/$contains called with user-written matcher functions whose match/start/end/groups/next fields are ill-typed, out of range, out of order or absent. " +
 		"non-trivial = the program compiled and Eval was actually entered (compile errors are not counted); distinct by (program text, input)"
 	fw.Register(&fw.Prop{
 		ID: "C09", Title: "Eval is total", Rule: rule,
 		Assumptions: []string{"size-like parameters ($pad width, range bounds) are kept small by the generator, as the property's quantifier prescribes", "user lambdas cannot recurse (unique binding names) except one explicit bounded-counter recursion shape", "non-termination is judged on process CPU time: 2 s in the shard, then 30 s alone"},
 		Plan: func(tier string, seed uint64) *fw.Plan {
 			nSweep := sweepSize()
-			nRand := int64(40000)
+			nRand := int64(54000)
 			if tier == "thorough" {
-				nRand = 3000000
+				nRand = 4000000
 			}
 			return &fw.Plan{N: nSweep + nRand,
 				Subspaces: []string{fmt.Sprintf("all %d (built-in, arity<=3, argument-kind tuple) combinations over %d kinds", nSweep, len(argKinds))},
@@ -215,9 +221,9 @@ func init() {
 		Assumptions: []string{"a nested typed-nil *interface{} (the port's JSON null) and nil slices marshal as null and are tolerated (documented wart, counted in evidence)", "EvalBytes/Eval agreement is judged on deterministic programs only", "the 'ErrUndefined iff no value' clause is judged against the reference evaluator in the model-based checks (C01, C02, C12-C15), here only its consistency (nil result with ErrUndefined)"},
 		Plan: func(tier string, seed uint64) *fw.Plan {
 			nSweep := sweepSize()
-			nRand := int64(40000)
+			nRand := int64(54000)
 			if tier == "thorough" {
-				nRand = 2000000
+				nRand = 2600000
 			}
 			nBad := int64(2000)
 			nNF := int64(len(c10NonFinite) * len(c10NonFiniteDocs))
